@@ -45,6 +45,40 @@ def abi_texts(tier, rnd):
     return out
 
 
+def illtyped_attempts():
+    """programs that violate a typing rule: PyTeal should refuse them; if one compiles, its text is judged like any other"""
+    import replay
+    pt = replay.pt
+    U, B, NONE, ANY = pt.TealType.uint64, pt.TealType.bytes, pt.TealType.none, pt.TealType.anytype
+    c = lambda: pt.Btoi(pt.Txn.application_args[0])  # noqa: E731
+    out = []
+
+    def sub(ret, body, nargs=1):
+        def mk():
+            ns = {"pt": pt, "body": body}
+            exec("def f(%s):\n    return body(%s)\n" % (", ".join("a%d" % j for j in range(nargs)), ", ".join("a%d" % j for j in range(nargs))), ns)
+            return pt.Subroutine(ret)(ns["f"])
+        return mk
+    out.append(("anytype routine, bare Return on one path", lambda: pt.Seq(pt.Pop(sub(ANY, lambda a: pt.Seq(pt.If(a).Then(pt.Return()), pt.Int(1)))()(c())), pt.Int(1))))
+    out.append(("anytype routine, body of type none", lambda: pt.Seq(pt.Pop(sub(ANY, lambda a: pt.Pop(a))()(c())), pt.Int(1))))
+    out.append(("uint64 routine, bare Return", lambda: pt.Seq(pt.Pop(sub(U, lambda a: pt.Seq(pt.If(a).Then(pt.Return()), pt.Int(1)))()(c())), pt.Int(1))))
+    out.append(("none routine returning a value", lambda: pt.Seq(sub(NONE, lambda a: pt.Return(a))()(c()), pt.Int(1))))
+    out.append(("bytes routine returning uint64", lambda: pt.Seq(pt.Pop(sub(B, lambda a: pt.Return(pt.Btoi(a)))()(c())), pt.Int(1))))
+    out.append(("value in the middle of a Seq", lambda: pt.Seq(pt.Int(1), pt.Int(2))))
+    out.append(("If with uint64 / bytes arms", lambda: pt.Seq(pt.Pop(pt.If(c(), pt.Int(1), pt.Bytes("a"))), pt.Int(1))))
+    out.append(("If/ElseIf/Else with mixed arm types", lambda: pt.Seq(pt.Pop(pt.Btoi(pt.If(c()).Then(pt.Int(1)).ElseIf(c()).Then(pt.Bytes("a")).Else(pt.Bytes("b")))), pt.Int(1))))
+    out.append(("Cond with mixed arm types", lambda: pt.Seq(pt.Pop(pt.Cond([c(), pt.Int(1)], [pt.Int(1), pt.Bytes("a")])), pt.Int(1))))
+    out.append(("While with a value body", lambda: pt.Seq(pt.While(c()).Do(pt.Int(1)), pt.Int(1))))
+    out.append(("Assert on bytes", lambda: pt.Seq(pt.Assert(pt.Txn.sender()), pt.Int(1))))
+    out.append(("Add of bytes", lambda: pt.Add(pt.Txn.sender(), pt.Int(1))))
+    out.append(("main of type bytes", lambda: pt.Txn.sender()))
+    out.append(("Return(bytes) from main", lambda: pt.Return(pt.Txn.sender())))
+    out.append(("ScratchVar(uint64) storing bytes", lambda: pt.Seq(v := pt.ScratchVar(U), v.store(pt.Txn.sender()), v.load())))
+    out.append(("Log of uint64", lambda: pt.Seq(pt.Log(pt.Int(1)), pt.Int(1))))
+    out.append(("call with too few arguments", lambda: pt.Seq(pt.Pop(sub(U, lambda a, b: a + b, nargs=2)()(c())), pt.Int(1))))
+    return out
+
+
 def main():
     chk = common.Check("C05")
     tier, seed = common.tier(), common.seed()
@@ -95,6 +129,28 @@ def main():
         t["_text"], t["_st"] = teal, {"v": v}
         entries.append({"texts": [t]})
         descr.append({"big": what})
+    import replay as _rp
+    refused = accepted = 0
+    for what, build in illtyped_attempts():
+        for v in (5, 6, 8, 10):
+            try:
+                teal = _rp.pt.compileTeal(build(), _rp.pt.Mode.Application, version=v)
+            except _rp.PYTEAL_ERRORS:
+                refused += 1
+                continue
+            except TypeError:
+                refused += 1
+                continue
+            accepted += 1
+            if teal in seen:
+                continue
+            seen.add(teal)
+            t = static.text_record(teal, v, "app", tag="v%d" % v, registry={"f": [(1, 1), (1, 0), (2, 1)]} if False else None)
+            t["_text"], t["_st"] = teal, {"v": v}
+            entries.append({"texts": [t]})
+            descr.append({"big": "ill-typed attempt: " + what})
+    chk.notes["illtyped_attempts_refused"] = refused
+    chk.notes["illtyped_attempts_compiled_and_judged"] = accepted
     clean = [{"texts": [{k: v for k, v in t.items() if not k.startswith("_")} for t in e["texts"]]} for e in entries]
     lines, tres, errors = static.run(clean, "c05")
     for r in tres:
